@@ -67,10 +67,24 @@ func Generate(r *sim.Rng, prop, tier string, idx int) *sim.Case {
 }
 
 func (g *gen) expiryFar() int64 {
-	if g.r.Chance(1, 3) {
+	switch g.r.Intn(9) {
+	case 0, 1, 2:
 		return int64(time.Hour)
+	case 3:
+		// "practically never": instants beyond what fits nanoseconds-since-1970 in an int64
+		return sim.Pick(g.r, FarExpiry2500, FarExpiry9999, int64(200*365*24*time.Hour))
 	}
 	return 0
+}
+
+// casRef picks the version reference of a CAS: the latest seen (0), the first
+// seen (1), a foreign one (2) or a near miss of the latest (3..5: letter case
+// changed, a blank appended, the last character cut off).
+func (g *gen) casRef(weights ...int) int64 {
+	if g.r.Chance(1, 8) {
+		return int64(3 + g.r.Intn(3))
+	}
+	return int64(weights[g.r.Intn(len(weights))])
 }
 
 func genC02(g *gen, c *sim.Case, tier string) {
@@ -137,7 +151,7 @@ func genC02(g *gen, c *sim.Case, tier string) {
 			case 5:
 				task.Ops = append(task.Ops, sim.Op{K: "put", S: k, V: g.val(), D: g.expiryFar()})
 			case 6, 7, 8:
-				task.Ops = append(task.Ops, sim.Op{K: "cas", S: k, V: g.val(), N: int64(sim.Pick(r, 0, 0, 0, 1, 2)), D: g.expiryFar()})
+				task.Ops = append(task.Ops, sim.Op{K: "cas", S: k, V: g.val(), N: g.casRef(0, 0, 0, 1, 2), D: g.expiryFar()})
 			case 9:
 				task.Ops = append(task.Ops, sim.Op{K: "del", S: k})
 			case 10:
@@ -245,7 +259,7 @@ func (g *gen) seqOp(keys []string, withShortExpiry bool) sim.Op {
 	case 4, 5:
 		return sim.Op{K: "put", S: k, V: g.val(), D: exp()}
 	case 6, 7:
-		return sim.Op{K: "cas", S: k, V: g.val(), N: int64(sim.Pick(r, 0, 0, 1, 2)), D: exp()}
+		return sim.Op{K: "cas", S: k, V: g.val(), N: g.casRef(0, 0, 1, 2), D: exp()}
 	case 8:
 		return sim.Op{K: "del", S: k}
 	case 9:
@@ -383,7 +397,7 @@ func genC06(g *gen, c *sim.Case, tier string) {
 		case 1:
 			task.Ops = append(task.Ops, sim.Op{K: "getmany", S: strings.Join(pickKeys(r, keys), ",")})
 		case 2:
-			task.Ops = append(task.Ops, sim.Op{K: "cas", S: k, V: g.val(), N: int64(sim.Pick(r, 0, 0, 1, 2))})
+			task.Ops = append(task.Ops, sim.Op{K: "cas", S: k, V: g.val(), N: g.casRef(0, 0, 1, 2)})
 		case 3:
 			task.Ops = append(task.Ops, sim.Op{K: "del", S: k})
 		case 4:
@@ -412,13 +426,20 @@ func genC07(g *gen, c *sim.Case, tier string) {
 	// setup task creates the keys (most of the time)
 	nw := 1 + r.Intn(3)
 	nwr := 1 + r.Intn(2)
+	// records that "practically never" expire behave like records without expiry
+	farOr0 := func() int64 {
+		if r.Chance(1, 5) {
+			return sim.Pick(r, FarExpiry2500, FarExpiry9999, int64(200*365*24*time.Hour))
+		}
+		return 0
+	}
 	// writers
 	for t := 0; t < nwr; t++ {
 		task := sim.Task{Name: fmt.Sprintf("m%d", t)}
 		if t == 0 {
 			for _, k := range keys {
 				if r.Chance(4, 5) {
-					task.Ops = append(task.Ops, sim.Op{K: "create", S: k, V: g.val()})
+					task.Ops = append(task.Ops, sim.Op{K: "create", S: k, V: g.val(), D: farOr0()})
 				}
 			}
 		}
@@ -431,7 +452,7 @@ func genC07(g *gen, c *sim.Case, tier string) {
 				if r.Chance(1, 4) {
 					v = "="
 				}
-				op := sim.Op{K: "put", S: k, V: v}
+				op := sim.Op{K: "put", S: k, V: v, D: farOr0()}
 				if c.Knobs["backend"] == 0 && r.Chance(1, 6) {
 					op.D = -int64(time.Second) // an already expired record: the key becomes absent (in-memory backend only)
 				}
@@ -443,7 +464,7 @@ func genC07(g *gen, c *sim.Case, tier string) {
 					g.nval++
 					vs = append(vs, fmt.Sprintf("x%d", g.nval))
 				}
-				pm := sim.Op{K: "putmany", S: strings.Join(ks, ","), V: strings.Join(vs, ","), F: r.Chance(1, 2)}
+				pm := sim.Op{K: "putmany", S: strings.Join(ks, ","), V: strings.Join(vs, ","), F: r.Chance(1, 2), D: farOr0()}
 				if c.Knobs["backend"] == 0 && r.Chance(1, 6) {
 					pm.D = -int64(time.Second)
 					pm.E = int64(1 + r.Intn(1<<uint(len(ks))-1)) // some of the records are already expired
@@ -455,13 +476,13 @@ func genC07(g *gen, c *sim.Case, tier string) {
 				if r.Chance(1, 3) {
 					v = "=" // same value, new version (what a lease refresh does)
 				}
-				task.Ops = append(task.Ops, sim.Op{K: "cas", S: k, V: v, N: 0})
+				task.Ops = append(task.Ops, sim.Op{K: "cas", S: k, V: v, N: 0, D: farOr0()})
 			case 6:
-				task.Ops = append(task.Ops, sim.Op{K: "cas", S: k, V: g.val(), N: int64(sim.Pick(r, 1, 2))})
+				task.Ops = append(task.Ops, sim.Op{K: "cas", S: k, V: g.val(), N: g.casRef(1, 2), D: farOr0()})
 			case 7:
 				task.Ops = append(task.Ops, sim.Op{K: "del", S: k})
 			case 8:
-				task.Ops = append(task.Ops, sim.Op{K: "create", S: k, V: g.val()})
+				task.Ops = append(task.Ops, sim.Op{K: "create", S: k, V: g.val(), D: farOr0()})
 			default:
 				task.Ops = append(task.Ops, sim.Op{K: "jump", D: int64(sim.Pick(r, time.Microsecond, time.Millisecond, 30*time.Millisecond, 300*time.Millisecond))})
 			}
